@@ -33,6 +33,10 @@ MUTATORS = [
     {"k": "create_file", "path": H("a/b/f"), "flags": O["WRONLY"] | O["TRUNC"], "mode": 0o600},
     {"k": "mkdir_all", "path": H("a/b/c/../x/y/z"), "mode": 0o755},
     {"k": "mkdir_all", "path": H("d/s/p/q"), "mode": 0o700},
+    {"k": "mkdir_all", "path": H("a/b/../../n1/n2"), "mode": 0o755},
+    {"k": "mkdir_all", "path": H("a/b/c/../../../m1"), "mode": 0o755},
+    {"k": "create", "path": H("a/b/../../newf"), "type": "file", "mode": 0o644},
+    {"k": "create_file", "path": H("a/b/c/../../../cf2"), "flags": O["WRONLY"] | O["CREAT"], "mode": 0o600},
     {"k": "rename", "src": H("a/b/c/../f"), "dst": H("d/e/../moved"), "flags": 0},
     {"k": "rename", "src": H("d/e"), "dst": H("a/b/c/e2"), "flags": 1},
 ]
@@ -110,7 +114,7 @@ def run(ck):
                 ck.violation("C03: a mutating operation touched an entry of a directory that was never inside the root", dict(desc, touched=probs[:10]))
             nontrivial.add((job["op"]["k"], str(job["op"].get("path", job["op"].get("src"))), tag))
     # ---- schedules
-    base = [{"id": i + 1, "tree": tree, "op": op, "snap": "all"} for i, op in enumerate(MUTATORS)]
+    base = S.flag_variants([{"id": i + 1, "tree": tree, "op": op, "snap": "all"} for i, op in enumerate(MUTATORS)])
     for deny in (("openat2",), ()):
         tag = ",".join(deny) or "none"
         _, bl, _ = run_driver_parallel(base, deny=deny, tag="c03b" + tag, shards=4)
@@ -131,7 +135,7 @@ def run(ck):
             stats["attacked"] += 1
             stats["by_op"][job["op"]["k"]] = stats["by_op"].get(job["op"]["k"], 0) + 1
             desc = {"job": J.describe({"op": job["op"]}), "attack": job["attack_desc"], "resolver": "emulated" if deny else "openat2",
-                    "outcome": r, "attack_log": res.get("attack_log")}
+                    "resolver_flags": "NO_SYMLINKS" if job.get("rflags") else "none", "outcome": r, "attack_log": res.get("attack_log")}
             if "panic" in r:
                 ck.violation("C03: a mutating operation panicked under attack", desc)
                 continue
@@ -148,7 +152,7 @@ def run(ck):
             ret_fd = r.get("ok", {}).get("fd") if "ok" in r else None
             if set(fa) - set(fb) - ({ret_fd} if ret_fd is not None else set()) or set(fb) - set(fa):
                 ck.violation("C03/C11: descriptor table changed under attack", dict(desc, before=res.get("fds_before"), after=res.get("fds_after")))
-            nontrivial.add((job["op"]["k"], str(job["attack_desc"]["at"]), job["attack_desc"]["action"], tag))
+            nontrivial.add((job["op"]["k"], str(job["op"].get("path", job["op"].get("src"))), job.get("rflags", 0), str(job["attack_desc"]["at"]), job["attack_desc"]["action"], tag))
             if len(samples) < 4 and "err" in r and r["err"]["kind"] == "SafetyViolation":
                 samples.append(desc)
     cov = {
@@ -156,7 +160,8 @@ def run(ck):
         "distinct_nontrivial": len(nontrivial),
         "exhaustive": bool(thorough),
         "rule": "static: 15 mutating operation shapes x 21 path spellings aimed at the outside ('..', '.', '', absolute, through links to the root's "
-                "parent / a sibling / a foreign file); schedules: 15 mutating calls x %s relevant boundaries x 10 attacker actions%s; both backends; "
+                "parent / a sibling / a foreign file); schedules: 19 mutating calls (each also on a Root with NO_SYMLINKS when its path names no link) x %s relevant boundaries "
+                "x 11 attacker actions (move out / up, exchange with links, unlink)%s; both backends; "
                 "oracle on the whole sandbox (root, its parent, sibling directories); distinct by (op, path | boundary+action, backend)"
                 % ("all" if thorough else "sampled (260 per call)", " plus do/undo pairs" if thorough else ""),
         "samples": samples or [{"note": "none"}],
